@@ -3,6 +3,7 @@ package proxy
 import (
 	"context"
 	"crypto/tls"
+	"errors"
 	"fmt"
 	"net"
 	"net/http"
@@ -184,6 +185,14 @@ func (s *Server) proxyTCPRoute(c *gin.Context) {
 }
 
 func (s *Server) panicRoute(c *gin.Context, err any) {
+	if e, ok := err.(error); ok && errors.Is(e, http.ErrAbortHandler) {
+		// The reverse proxy aborts the handler when the upstream fails after
+		// the response has been started. Propagate the abort to net/http so
+		// it closes the connection, otherwise the partial response is
+		// completed and the client can't tell it was truncated.
+		panic(err)
+	}
+
 	s.logger.Error(
 		"handler panic",
 		zap.String("path", c.FullPath()),
